@@ -3735,6 +3735,7 @@ else if( node.number_of_data_chunks == 1 ) {
       CHECK_ADF_ABORT( *error_return ) ;
       ADFI_write_data_chunk_table( file_index, &dct_block_offset,
 		2, data_chunk_entry_table, error_return ) ;
+      CHECK_ADF_ABORT( *error_return ) ;
 
     /** Update node header with number of data-chunks = 2 and the
 		pointer to the data-chunk-table **/
@@ -4105,6 +4106,7 @@ else if( node.number_of_data_chunks == 1 ) {
       CHECK_ADF_ABORT( *error_return ) ;
       ADFI_write_data_chunk_table( file_index, &dct_block_offset,
 		2, data_chunk_table, error_return ) ;
+      CHECK_ADF_ABORT( *error_return ) ;
 
 	/** Update node header with number of data-chunks = 2 and the
 		pointer to the data-chunk-table **/
